@@ -68,10 +68,22 @@ type mspec struct {
 	Cipher string
 	Hash   string
 	Comp   string
+	// how the plaintext is handed to the WriteCloser: nil = pieces of at most 4096 octets; otherwise these Write sizes
+	// (the partial-length writer cuts every Write call separately, see spec/PGPPartial.tla)
+	Writes []int
+	Mode   string // label of Writes for case identities: "one", "32k", "pat"
+}
+
+func ms(kind, key, cipher, hash, comp string) mspec {
+	return mspec{Kind: kind, Key: key, Cipher: cipher, Hash: hash, Comp: comp}
 }
 
 func (m mspec) String() string {
-	return fmt.Sprintf("%s/%s/%s/%s/%s", m.Kind, m.Key, m.Cipher, m.Hash, m.Comp)
+	s := fmt.Sprintf("%s/%s/%s/%s/%s", m.Kind, m.Key, m.Cipher, m.Hash, m.Comp)
+	if m.Mode != "" {
+		s += "/" + m.Mode
+	}
+	return s
 }
 
 // produce builds the message with the package under test.
@@ -114,9 +126,15 @@ func produce(m mspec, k keyset, plain []byte) (msg []byte, err error) {
 	if err != nil {
 		return nil, err
 	}
+	wi := 0
 	for rest := plain; len(rest) > 0; {
 		n := len(rest)
-		if n > 4096 {
+		if m.Writes != nil {
+			if wi < len(m.Writes) && m.Writes[wi] < n {
+				n = m.Writes[wi]
+			}
+			wi++
+		} else if n > 4096 {
 			n = 1 + (len(rest)*7)%4096
 		}
 		if _, err = w.Write(rest[:n]); err != nil {
@@ -670,14 +688,14 @@ func TestC44(t *testing.T) {
 			for hi, h := range hs {
 				n++
 				if thorough || (ci+hi+n)%4 == int(vutil.Seed())%4 {
-					specs = append(specs, mspec{"enc", k.kind, c, h, "none"}, mspec{"encsig", k.kind, c, h, "none"})
+					specs = append(specs, ms("enc", k.kind, c, h, "none"), ms("encsig", k.kind, c, h, "none"))
 				}
 			}
 		}
 		for hi, h := range hs {
 			// quick: every hash with some key and every key with some hash
 			if thorough || hi == (n+int(vutil.Seed()))%len(hs) || keys[(hi+int(vutil.Seed()))%len(keys)].kind == k.kind {
-				specs = append(specs, mspec{"sig", k.kind, "aes128", h, "none"}, mspec{"detached", k.kind, "aes128", h, "none"}, mspec{"detachedtext", k.kind, "aes128", h, "none"})
+				specs = append(specs, ms("sig", k.kind, "aes128", h, "none"), ms("detached", k.kind, "aes128", h, "none"), ms("detachedtext", k.kind, "aes128", h, "none"))
 			}
 		}
 	}
@@ -689,7 +707,7 @@ func TestC44(t *testing.T) {
 					if z != "none" {
 						kind = "symz"
 					}
-					specs = append(specs, mspec{kind, pgpkit.RSA, c, h, z})
+					specs = append(specs, ms(kind, pgpkit.RSA, c, h, z))
 				}
 			}
 		}
@@ -744,6 +762,8 @@ func TestC44(t *testing.T) {
 	r.textSignatures(keys)
 	// ---- (2b) session-key packets whose decrypted content is shorter than cipher octet + checksum (anyone holding the public key can make them)
 	r.shortSessionKey(keys)
+	// ---- (2c) partial body lengths: write patterns around every chunk-size boundary (spec/PGPPartial.tla), hand-built chunkings
+	r.partialLengths(keys, vutil.Env("VERIF_C44_PARTIAL", ""))
 	// ---- (3) GnuPG in both directions
 	if vutil.Env("VERIF_C44_GPG", "1") == "1" {
 		r.gpg(keys, specs, thorough)
@@ -929,6 +949,74 @@ func (r *runner) gpg(keys []keyset, specs []mspec, thorough bool) {
 		}
 	}
 	r.gpgTextMode(g, dir, keys, imported)
+	r.gpgBig(g, dir, keys, imported)
+}
+
+// gpgBig: partial body lengths across implementations.  Messages handed to the package in ONE Write (chunks of 2^16 and more)
+// must be readable by GnuPG; GnuPG's own large messages (8 KiB chunks) must be readable here.
+func (r *runner) gpgBig(g *pgpkit.GPG, dir string, keys []keyset, imported map[string]bool) {
+	var k keyset
+	for _, kk := range keys {
+		if imported[kk.kind] && (kk.kind == pgpkit.RSA || k.e == nil) {
+			k = kk
+		}
+	}
+	if k.e == nil {
+		return
+	}
+	ring := openpgp.EntityList{k.e}
+	fpr := pgpkit.Fingerprint(k.e)
+	for i, kind := range []string{"enc", "encsig", "sym", "sig"} {
+		sz := []int{100000, 131072 + 5, 65523, 200000}[i]
+		plain := pattern(sz, i)
+		m := mspec{Kind: kind, Key: k.kind, Cipher: "aes256", Hash: "sha256", Comp: "none", Writes: []int{sz}, Mode: "one"}
+		msg, err := produce(m, k, plain)
+		if err != nil {
+			continue
+		}
+		mf := filepath.Join(dir, fmt.Sprintf("big%d.gpg", i))
+		os.WriteFile(mf, msg, 0o600)
+		args := []string{"--decrypt", mf}
+		if kind == "sym" {
+			args = append([]string{"--passphrase", passphrase}, args...)
+		}
+		r.out.Case("gpg-accepts-big|" + m.String())
+		so, se, err := g.Run(nil, args...)
+		if err != nil || !bytes.Equal(so, plain) {
+			so, se, err = g.Run(nil, args...) // must be reproducible
+		}
+		if err != nil || !bytes.Equal(so, plain) {
+			r.viol("pgp-gpg-rejects-partial:"+kind, fmt.Sprintf("GnuPG does not read a %d-byte %s message written by the package in one Write (largest partial chunk 2^%d)", sz, kind, maxPartialExp(msg)),
+				map[string]any{"spec": m.String(), "gpg": se})
+		} else {
+			r.cnt["gpg_accepts_go_big"]++
+		}
+		pf := filepath.Join(dir, fmt.Sprintf("bigp%d.bin", i))
+		os.WriteFile(pf, plain, 0o600)
+		of := filepath.Join(dir, fmt.Sprintf("bigo%d.gpg", i))
+		gargs := []string{"--yes", "-o", of, "--compress-algo", "none", "--cipher-algo", "AES256", "--digest-algo", "SHA256"}
+		switch kind {
+		case "enc":
+			gargs = append(gargs, "-r", fpr, "--encrypt", pf)
+		case "encsig":
+			gargs = append(gargs, "-r", fpr, "-u", fpr, "--sign", "--encrypt", pf)
+		case "sym":
+			gargs = append(gargs, "--passphrase", passphrase, "--symmetric", pf)
+		case "sig":
+			gargs = append(gargs, "-u", fpr, "--sign", pf)
+		}
+		if _, _, err := g.Run(nil, gargs...); err != nil {
+			r.cnt["gpg_could_not_produce"]++
+			continue
+		}
+		gm, _ := os.ReadFile(of)
+		r.out.Case("go-accepts-big|" + m.String())
+		if o := consume(kind, gm, plain, ring, plain); o.Class != "silent" {
+			r.viol("pgp-go-rejects-gpg-partial:"+kind, fmt.Sprintf("a %d-byte %s message by GnuPG is not read back: %s %s", sz, kind, o.Class, o.Detail), map[string]any{"spec": m.String()})
+		} else {
+			r.cnt["go_accepts_gpg_big"]++
+		}
+	}
 }
 
 // gpgTextMode: text-mode signatures between GnuPG and the package with the text cut around every CR on the Go side.
